@@ -122,30 +122,7 @@ func c13Ops(shared, graphM *openfgav1.AuthorizationModel) []c13Op {
 			p, _ := g.PathExists("user", "doc#viewer")
 			return g.GetDOT() + r.GetDOT() + fmt.Sprintf("%+v %v", g.GetCycles(), p)
 		}},
-		{"weighted-graph-shared", func() string {
-			o := wgBuild(graphM)
-			if o.g == nil {
-				return o.verdict
-			}
-			var ids []string
-			for id := range o.g.GetNodes() {
-				if !strings.Contains(id, ":0") { // operator nodes carry random ULIDs
-					ids = append(ids, id)
-				}
-			}
-			sort.Strings(ids)
-			var sb strings.Builder
-			for _, id := range ids {
-				n, _ := o.g.GetNodeByID(id)
-				if n.GetNodeType() == graph.OperatorNode {
-					continue
-				}
-				w := append([]string{}, n.GetWildcards()...)
-				sort.Strings(w)
-				fmt.Fprintf(&sb, "%s %s %v\n", id, ref.FmtWeights(n.GetWeights()), w)
-			}
-			return sb.String()
-		}},
+		{"weighted-graph-shared", func() string { return wgObsString(wgBuild(graphM)) }},
 		{"validators+utils", func() string {
 			var sb strings.Builder
 			for _, s := range []string{"doc:1", "group:eng#member", "user:*", "bad id", "doc:1#viewer"} {
@@ -162,6 +139,53 @@ func c13Ops(shared, graphM *openfgav1.AuthorizationModel) []c13Op {
 		}},
 	}
 	return ops
+}
+
+// wgObsString renders a weighted-graph build without the random operator labels.
+func wgObsString(o *wgObs) string {
+	if o.g == nil {
+		return o.verdict + " " + errStr(o.err)
+	}
+	var ids []string
+	for id := range o.g.GetNodes() {
+		if !strings.Contains(id, ":0") { // operator nodes carry random ULIDs
+			ids = append(ids, id)
+		}
+	}
+	sort.Strings(ids)
+	var sb strings.Builder
+	for _, id := range ids {
+		n, _ := o.g.GetNodeByID(id)
+		if n.GetNodeType() == graph.OperatorNode {
+			continue
+		}
+		w := append([]string{}, n.GetWildcards()...)
+		sort.Strings(w)
+		fmt.Fprintf(&sb, "%s %s %v\n", id, ref.FmtWeights(n.GetWeights()), w)
+	}
+	return sb.String()
+}
+
+// c13LongLived is a weighted-graph builder value that lives as long as the process (the history search replaces it on reset):
+// "which inputs were processed earlier in the process" includes what an earlier Build left behind in the builder.
+var c13LongLived = graph.NewWeightedAuthorizationModelGraphBuilder()
+
+func c13Reset() bool {
+	c13LongLived = graph.NewWeightedAuthorizationModelGraphBuilder()
+	return resetParserCaches()
+}
+
+// c13BuilderModels: three models whose tuple-to-usersets resolve against different types and relations; the third is rejected
+// (its parent type lacks the relation that the first model's type of the same name has).
+func c13BuilderModels() []*openfgav1.AuthorizationModel {
+	u := []ref.Restriction{{Type: "user"}}
+	w2 := &ref.Model{Schema: "1.1", Types: []ref.TypeDef{{Name: "user"},
+		{Name: "team", Rels: []ref.Relation{{Name: "member", Rw: ref.T(), Restr: u}}},
+		{Name: "doc", Rels: []ref.Relation{{Name: "owner", Rw: ref.T(), Restr: []ref.Restriction{{Type: "team"}}}, {Name: "can", Rw: ref.TT("member", "owner")}}}}}
+	w3 := &ref.Model{Schema: "1.1", Types: []ref.TypeDef{{Name: "user"},
+		{Name: "group", Rels: []ref.Relation{{Name: "lead", Rw: ref.T(), Restr: u}}},
+		{Name: "doc", Rels: []ref.Relation{{Name: "parent", Rw: ref.T(), Restr: []ref.Restriction{{Type: "group"}}}, {Name: "viewer", Rw: ref.U(ref.T(), ref.TT("member", "parent")), Restr: u}}}}}
+	return []*openfgav1.AuthorizationModel{c13GraphModel(), ref.ToProto(w2), ref.ToProto(w3)}
 }
 
 type c13Case struct {
@@ -286,6 +310,38 @@ func c13History(ctx *core.Ctx) {
 	for _, o := range c13Ops(shared, graphM)[6:] {
 		alphabet = append(alphabet, op{o.Name, o.F})
 	}
+	builderOp := map[int]bool{}
+	for i, wm := range c13BuilderModels() {
+		wm := wm
+		builderOp[len(alphabet)] = true
+		alphabet = append(alphabet, op{fmt.Sprintf("long-lived-weighted-builder-model%d", i+1), func() string {
+			o := &wgObs{verdict: "accepted"}
+			func() {
+				defer func() {
+					if p := recover(); p != nil {
+						o = &wgObs{panic: p, verdict: fmt.Sprintf("panic %v", p)}
+					}
+				}()
+				o.g, o.err = c13LongLived.Build(wm)
+				if o.err != nil {
+					o.g, o.verdict = nil, "rejected"
+				}
+			}()
+			return wgObsString(o)
+		}})
+	}
+	// the state key: parser caches plus what the long-lived builder has been given (over-fine: the builder is opaque)
+	stateKey := func(hist []int, last int) string {
+		var sb strings.Builder
+		sb.WriteString(parserCacheSnapshot())
+		for _, h := range append(append([]int{}, hist...), last) {
+			if builderOp[h] {
+				fmt.Fprintf(&sb, "|b%d", h)
+			}
+		}
+		return sb.String()
+	}
+	resetParserCaches := c13Reset
 	if !resetParserCaches() {
 		ctx.Note("history search needs the cache reset hook of the verification overlay")
 		return
@@ -334,7 +390,7 @@ func c13History(ctx *core.Ctx) {
 					alphabet[h].f()
 				}
 				out := alphabet[i].f()
-				snap := parserCacheSnapshot()
+				snap := stateKey(nd.hist, i)
 				if mine {
 					ctx.Trans(1)
 					ctx.State(snap)
@@ -639,7 +695,7 @@ func init() {
 	core.Register(&core.Check{
 		ID: "C13",
 		Rule: "(1) inputs untouched: every full model of the generator families, the modular models and every 97th graph model, with the type definitions reversed, through printer (both options), both graph builders and the utils: strict snapshot before = after; module file slices through the merger. " +
-			"(2) history independence, explicit-state search: state = contents of the process-global ANTLR caches (serialised DFAs), transitions = the real parse entry points on 8 documents (valid, invalid, modular) plus printer, merger, both graph builders and validators; successor = cache reset + replay of the history + one call; breadth first to depth 3 (quick) / 4 (thorough), no state merging below depth 3; invariant on every transition: output equals the cold output. " +
+			"(2) history independence, explicit-state search: state = contents of the process-global ANTLR caches (serialised DFAs), transitions = the real parse entry points on 8 documents (valid, invalid, modular) plus printer, merger, both graph builders and validators, plus one weighted-graph builder value that lives as long as the process, given three models whose tuple-to-usersets resolve against different types (its inputs so far are part of the state key); successor = cache reset + replay of the history + one call; breadth first to depth 3 (quick) / 4 (thorough), no state merging below depth 3; invariant on every transition: output equals the cold output. " +
 			"(3) interleavings: pairs of 12 calls (quick: every call with itself and with three hub calls; thorough: every pair) (parses, modular parse, DSL->JSON, printing shared models, merge, both graph builders on a shared model, validators) as two controlled threads with caches reset, scheduling points at every statement of the repository's packages and every antlr lock operation, preemption bound 1 (thorough: bound 2 on short pairs, three threads bound 1): each result equals the sequential result, shared inputs unchanged, no deadlock, no panic. " +
 			"(4) the same bodies free-running on real threads in a separate -race build: no report with a repository frame. states = cache states + schedule classes, non-trivial = distinct models / call pairs",
 		Assume: []string{
